@@ -23,6 +23,18 @@ pub struct PropSpec {
     pub assumptions: Vec<&'static str>,
 }
 
+/// Where evidence and replay files go: /verif, or (VERIF_SCRATCH=1: runs against a deliberately
+/// modified tree, e.g. bin/seedcheck) /verif/target/scratch so that committed evidence is untouched.
+pub fn out_dir() -> PathBuf {
+    if std::env::var("VERIF_SCRATCH").is_ok_and(|v| v == "1") {
+        let d = verif_dir().join("target").join("scratch");
+        let _ = std::fs::create_dir_all(&d);
+        d
+    } else {
+        verif_dir()
+    }
+}
+
 pub fn verif_dir() -> PathBuf {
     std::env::var("VERIF_DIR").map_or_else(|_| PathBuf::from("/verif"), PathBuf::from)
 }
@@ -128,7 +140,7 @@ pub fn write_replay(
     choices: &[u32],
     out: &RunOut,
 ) -> PathBuf {
-    let dir = verif_dir().join("replays");
+    let dir = out_dir().join("replays");
     let _ = std::fs::create_dir_all(&dir);
     let mut h = crate::rng::Fnv::default();
     h.write_str(&v.key);
@@ -311,7 +323,7 @@ pub fn run_check(spec: &PropSpec, tier: &str, base_seed: u64, threads: usize) ->
         "wall_s": wall,
         "violations": n_viol,
     });
-    let dir = verif_dir().join("evidence");
+    let dir = out_dir().join("evidence");
     let _ = std::fs::create_dir_all(&dir);
     let _ = std::fs::write(dir.join(format!("{}.json", spec.id)), serde_json::to_string_pretty(&ev).unwrap());
     println!(
